@@ -145,7 +145,8 @@ class C01(Prop):
         # C05, C20 and C11, full lines compared, grammar oracle per delivered stream
         for name, cap in (("c05", 2500), ("c20", 2500), ("c11", 2500)):
             try:
-                cs = importlib.import_module(f"vlib.props.{name}").PROP.cases("quick", seed)
+                owner = importlib.import_module(f"vlib.props.{name}").PROP
+                cs = [c for c in owner.cases("quick", seed) if not owner.compare_from(c)]
             except Exception as ex:            # pragma: no cover
                 print(f"note: C01 skips the {name} population: {ex}")
                 continue
